@@ -178,8 +178,9 @@ def axisOps (i : Nat) (c : Params) (g : Glyph) (sx sy : Int) : List Op × Bool :
 
 /-- the short-circuit at the top of `mergeSlot` -/
 def inReach (c : Params) (b : Box) (sx sy : Int) : Bool :=
-  (sx + b.xa + c.margin ≥ c.limit.blx && sx + b.xi - c.margin ≤ c.limit.trx) ||
-  (sy + b.ya + c.margin ≥ c.limit.bly && sy + b.yi - c.margin ≤ c.limit.try_)
+  -- `sx, sy` are relative to the target's anchor; so is `_limit + _currOffset`; what can reach the neighbour is the target's box
+  (sx + b.xa + c.margin ≥ c.limit.blx + c.offx + c.tbox.xi && sx + b.xi - c.margin ≤ c.limit.trx + c.offx + c.tbox.xa) ||
+  (sy + b.ya + c.margin ≥ c.limit.bly + c.offy + c.tbox.yi && sy + b.yi - c.margin ≤ c.limit.try_ + c.offy + c.tbox.ya)
 
 /-- `ShiftCollider::mergeSlot` for a neighbour glyph `g` whose origin (plus its own shift) is `(sx, sy)` away from the
 target's anchor; returns the collider and `isCol` -/
